@@ -106,7 +106,7 @@ func init() {
 			return func(cx *bx.Ctx, h []byte, hi int) bool { return cx.OpsC03(h) }
 		})
 	// the enumeration / cross-view checks run ~10x more evaluations per (pattern, haystack): smaller haystack sets
-	q4 := bx.Tier{PN: 4, SK: 1, LASCII: 3, LBig: 2, LUTF8: 2, LUTF8Big: 2, LRaw: 2, LRawBig: 1, EmbedW: 1, EmbedPN: 2, TokL: 2, TokN: 5, SeedEmbW: 2, SeedEmbTokN: 8, SeedJ: []int{0, 33}, SeedEmbFirst: nSeeds, SeedTokL: 4, SeedTokN: 6, Budget: 150 * time.Second}
+	q4 := bx.Tier{PN: 4, SK: 1, LASCII: 3, LBig: 2, LUTF8: 2, LUTF8Big: 2, LRaw: 3, LRawBig: 1, EmbedW: 1, EmbedPN: 2, TokL: 2, TokN: 5, SeedEmbW: 2, SeedEmbTokN: 8, SeedJ: []int{0, 33}, SeedEmbFirst: nSeeds, SeedTokL: 4, SeedTokN: 6, Budget: 150 * time.Second}
 	t4 := thoroughOf(q4, 2) // ~40 evaluations per (pattern, haystack): the 5-node patterns get ASCII haystacks of <= 2 symbols
 	sweepProp("C04", "All FindAll* forms, Count, iterators (with early break), AppendAll*Index (three dst shapes) and the Engine enumeration API compared with regexp.FindAllSubmatchIndex for n in {-1,0,1,2,3,|m|,|m|+1}."+sweepRuleTail, true, false,
 		q4, t4, func(tier string) bx.PerHay {
